@@ -82,6 +82,37 @@ def t_m4_pid_and_duplicate():
     return 6
 
 
+def t_m4_no_filter_without_auto_ack():
+    # a pipe without auto-ack stores byte-identical packets with the same PID (e.g. from two identical transmitters)
+    sim, air, a, b = _pair()
+    c = Radio(sim, air, "C")
+    _setup_link(a, b, arc=0)
+    _setup_link(c, b, arc=0)
+    _w(b, 0x01, 0x3D)          # EN_AA off on pipe 1 (the receiving pipe)
+    _run(sim, 200 * US)
+    a.xfer(b"\xb0same")
+    a.set_ce(True)
+    _run(sim, 2 * MS)
+    c.xfer(b"\xb0same")
+    c.set_ce(True)
+    _run(sim, 2 * MS)
+    assert a.pid == c.pid and len(b.rx_fifo) == 2 and b.stats["dup"] == 0
+    # with auto-ack on that pipe the second one is taken for a re-transmission
+    sim, air, a, b = _pair()
+    c = Radio(sim, air, "C")
+    _setup_link(a, b, arc=0)
+    _setup_link(c, b, arc=0)
+    _run(sim, 200 * US)
+    a.xfer(b"\xb0same")
+    a.set_ce(True)
+    _run(sim, 2 * MS)
+    c.xfer(b"\xb0same")
+    c.set_ce(True)
+    _run(sim, 2 * MS)
+    assert len(b.rx_fifo) == 1 and b.stats["dup"] == 1
+    return 2
+
+
 def t_m2_ack_needs_pipe0():
     sim, air, a, b = _pair()
     _setup_link(a, b)
